@@ -147,7 +147,7 @@ func (f *Replace) Call(s *slip.Scope, args slip.List, depth int) (result slip.Ob
 		}
 		result = slip.String(ra)
 	case *slip.Vector:
-		end1 = f.checkStartEnd(s, start1, end1, seq1.Length(), depth)
+		end1 = f.checkStartEnd(s, start1, end1, len(seq1.AsList()), depth)
 		for i, v := range seq2 {
 			if end1 <= start1+i {
 				break
